@@ -2,7 +2,7 @@
 From Coq Require Import List ZArith Bool String.
 Import ListNotations.
 Require Import Nib.C08.Model Nib.C08.Spec Nib.C08.Proofs.
-Open Scope Z_scope.
+Local Open Scope Z_scope.
 
 Theorem C08_checker_sound : forall k value gas m cls left (se ce : bool),
   Pb k value gas m cls left se ce = true -> P k value gas m cls left (se = true) (ce = true).
